@@ -81,16 +81,17 @@ class World:
         for i, n in enumerate(nodes):
             ctrl = hc.make_node(n, node_id=i, stack=hc.RecordingStack(), step_limit=100000)
             self.nodes[n] = {"ctrl": ctrl, "ex": ctrl.executor, "active": {}, "blocked": [], "requests": [], "msg": 0,
-                             "rid": 0, "early": []}
+                             "rid": 0, "early": [], "tags": {}}
 
     # -- operations ---------------------------------------------------------------------------------------
-    def send(self, node, msg_obj, app=None):
+    def send(self, node, msg_obj, app=None, tag=None):
         from netqasm.backend.messages import deserialize_host_msg
         n = self.nodes[node]
         raw = bytes(msg_obj)
         msg = deserialize_host_msg(raw)
         n["msg"] += 1
         gen = n["ctrl"].handle_netqasm_message(n["msg"], msg)
+        n["tags"][id(gen)] = tag
         return self._drive(n, gen, app)
 
     def _drive(self, n, gen, app=None):
@@ -108,6 +109,7 @@ class World:
         except InvariantBroken:
             raise
         except Exception as exc:
+            n["faults"] = n.get("faults", 0) + 1
             return f"fault:{type(exc).__name__}"
 
     def resume(self, node):
@@ -207,12 +209,15 @@ def do_op(w: World, op):
         tagv = 1000 * (app + 1) + op[3]
         return w.send(node, sub_msg(app, f"set R{op[3] % 16} {tagv}\nset C1 {tagv + 1}\narray 2 @{op[3] % 3}\nstore {tagv} @{op[3] % 3}[1]\n"
                                          f"ret_reg R{op[3] % 16}\nret_arr @{op[3] % 3}\n"), app)
-    if k == "recv":
+    if k in ("recv", "recvf"):
         v = op[3]
         sock = 10 * app + v
         if app in w.waiting_apps(node):
             return "skip"   # one subroutine in flight per application
-        r = w.send(node, sub_msg(app, f"array 10 @5\narray 1 @6\nstore {v} @6[0]\nrecv_epr(9,{sock}) 6 5\nwait_all @5[0:10]\n"), app)
+        # "recvf": the subroutine faults after its wait (frees a qubit outside the unit module) - an older subroutine can fail
+        # while a younger one is still waiting
+        tail = "set Q1 9\nqfree Q1\n" if k == "recvf" else ""
+        r = w.send(node, sub_msg(app, f"array 10 @5\narray 1 @6\nstore {v} @6[0]\nrecv_epr(9,{sock}) 6 5\nwait_all @5[0:10]\n" + tail), app, tag=(k, v))
         if r == "blocked":
             n["requests"].append((app, sock))
         elif sock in n["early"] and not any(getattr(x, "purpose_id", None) == sock for x in n["ex"]._pending_epr_responses):
@@ -283,8 +288,15 @@ def abstract_state(w: World):
     out = []
     for node, n in sorted(w.nodes.items()):
         ex = n["ex"]
+        # part of the executor's own bookkeeping that decides how a later subroutine is numbered (kept abstract: is the id
+        # counter ahead of every subroutine it still knows?) - two histories that differ here must both be extended
+        nid = getattr(ex, "_next_subroutine_id", None)
+        ahead = tuple(sorted({min(nid - k, 1) for k in getattr(ex, "_subroutines", {})})) if isinstance(nid, int) else ()
+        # ... and does it still know every subroutine that is suspended in a wait?
+        ahead += (max(-2, min(2, len(getattr(ex, "_subroutines", {})) - len(n["blocked"]))),)
         out.append((node, tuple(sorted((a, tuple(p is not None for p in um)) for a, um in ex._qubit_unit_modules.items())),
-                    len(ex._used_physical_qubit_addresses), len(ex._pending_epr_responses), len(n["blocked"]), len(n["requests"]),
+                    len(ex._used_physical_qubit_addresses), len(ex._pending_epr_responses),
+                    tuple((a, n["tags"].get(id(g))) for a, g in n["blocked"]), len(n["requests"]), min(n.get("faults", 0), 2), ahead,
                     tuple(sorted((a, tuple(sorted(ex.registers_snapshot(a)))) for a in n["active"]))))
     return tuple(out)
 
@@ -339,10 +351,11 @@ def run_history(ctx, ops):
 ALPHABET = ([("init", "n0", 0, 2), ("init", "n0", 1, 1), ("stop", "n0", 0), ("stop", "n0", 1)] +
             [("alloc", "n0", 0, 0), ("alloc", "n0", 0, 1), ("alloc", "n0", 1, 0), ("free", "n0", 0, 0), ("free", "n0", 0, 1), ("free", "n0", 1, 0)] +
             [("write", "n0", 0, 1), ("write", "n0", 1, 2), ("recv", "n0", 0, 0), ("recv", "n0", 1, 0), ("deliver", "n0"),
-             ("init", "n1", 0, 1), ("alloc", "n1", 0, 0), ("write", "n1", 0, 1), ("stop", "n1", 0), ("early", "n0", 0, 0)])
+             ("init", "n1", 0, 1), ("alloc", "n1", 0, 0), ("write", "n1", 0, 1), ("stop", "n1", 0), ("early", "n0", 0, 0),
+             ("alloc", "n0", 0, -1), ("free", "n0", 0, -1)])
 
 
-INFLIGHT = [("recv", "n0", 0, 0), ("recv", "n0", 0, 1), ("recv", "n0", 1, 0), ("deliver", "n0"), ("write", "n0", 0, 1), ("write", "n0", 1, 2),
+INFLIGHT = [("recv", "n0", 0, 0), ("recv", "n0", 0, 1), ("recvf", "n0", 0, 0), ("recv", "n0", 1, 0), ("deliver", "n0"), ("write", "n0", 0, 1), ("write", "n0", 1, 2),
             ("early", "n0", 0, 1), ("stop", "n0", 0), ("init", "n0", 0, 2), ("alloc", "n0", 1, 0)]
 
 
@@ -351,7 +364,7 @@ def random_op(rng, profile="mixed"):
     app = rng.randrange(3)
     if profile == "inflight":
         # several subroutines blocked in a wait at once, finishing in any order, while others start
-        k = rng.choice(["init", "init", "stop", "alloc", "free", "write", "write", "recv", "recv", "recv", "deliver", "deliver", "early"])
+        k = rng.choice(["init", "init", "stop", "alloc", "free", "write", "write", "recv", "recv", "recvf", "deliver", "deliver", "early"])
     else:
         k = rng.choice(["init", "stop", "alloc", "alloc", "free", "free", "write", "write", "recv", "deliver", "deliver", "early"])
     if k == "init":
@@ -360,6 +373,8 @@ def random_op(rng, profile="mixed"):
         return (k, node, app)
     if k == "deliver":
         return (k, node)
+    if k in ("alloc", "free") and rng.random() < 0.08:
+        return (k, node, app, -rng.randrange(1, 5))     # negative virtual addresses index the unit module from its end
     return (k, node, app, rng.randrange(4) if k != "write" else rng.randrange(20))
 
 
